@@ -343,6 +343,9 @@ func C09(c *core.Ctx) {
 	for _, u := range unloadable {
 		c.Logf("edge row does not load: %s", u)
 	}
+	if len(unloadable) > 0 {
+		c.Inconclusive(fmt.Sprintf("%d rows of the edge table do not load under the default variant, so their round trip is not exercised (first: %s)", len(unloadable), unloadable[0]))
+	}
 	c.Logf("%d models, %d loaded variants, %d round trips; %d/%d service fields non-zero at least once", len(docs), loaded, len(events), len(fieldSeen), reflect.TypeOf(types.ServiceConfig{}).NumField())
 	c.Set("rule", "a case is one round trip Load -> Marshal -> Load -> Marshal of a model from the specification's tables (or the repository's full example), in YAML and in JSON, with default options (and without normalisation / path resolution for the custom-marshaller table); all non-trivial")
 }
